@@ -24,14 +24,34 @@ def parseTCOut (op : TCOp) (s : String) : TCOut :=
   | .check _, "0" => .bool false
   | _, _ => .ok
 
+/-- `restore`: the gate is marshalled and unmarshalled into a FRESH TimedCheck, which is used from then on (same timer
+    hook).  What JSON carries — sleep duration, budget, next open time, the count of the running period — continues; what it
+    does not — the fast-fail flag and its version — starts from zero, and the callbacks armed by the old object can no
+    longer reach the new one.  (Handled here, outside `TC.step`: the theorems speak about one object.) -/
+def TC.restored (c : TC) : TC := { c with fastFail := false, version := 0, armed := c.armed.map fun _ => -1 }
+
 /-- suite `tc`: model output, and the C16 monitor's verdict on the REAL trace (`-` fine, `!msg` violated) -/
 def suiteTC (_kvs : List (String × String)) (lines : List (String × String)) : List String :=
-  match lines.mapM (fun l => parseTCOp l.1) with
+  let isRestore (l : String × String) : Bool := l.1 == "restore"
+  match (lines.filter (fun l => !isRestore l)).mapM (fun l => parseTCOp l.1) with
   | none => lines.map fun _ => "bad-op\t-"
-  | some ops =>
-    let m := (({} : TC).run ops).map TCOut.fmt
-    let realTrace := ops.zip ((ops.zip (lines.map (·.2))).map fun (op, r) => parseTCOut op r)
+  | some opsOnly =>
+    -- model outputs, line by line
+    let step (acc : TC × List String) (l : String × String) : TC × List String :=
+      if isRestore l then (acc.1.restored, acc.2 ++ ["ok"])
+      else match parseTCOp l.1 with
+        | some op => let r := acc.1.step op; (r.1, acc.2 ++ [r.2.fmt])
+        | none => (acc.1, acc.2 ++ ["bad-op"])
+    let m := (lines.foldl step (({} : TC), [])).2
+    -- the monitor sees the real trace without the restore lines (a restore continues the period it lands in)
+    let realOnly := (lines.filter (fun l => !isRestore l)).map (·.2)
+    let realTrace := opsOnly.zip ((opsOnly.zip realOnly).map fun (op, r) => parseTCOut op r)
     let v := SpecC16.monitor {} realTrace
-    (m.zip v).map fun (a, b) => a ++ "\t" ++ (match b with | none => "-" | some msg => "!" ++ msg)
+    -- put the verdicts back on their lines
+    let rec place (ls : List (String × String)) (vs : List (Option String)) : List (Option String) :=
+      match ls with
+      | [] => []
+      | l :: rest => if isRestore l then none :: place rest vs else (vs.headD none) :: place rest vs.tail
+    (m.zip (place lines v)).map fun (a, b) => a ++ "\t" ++ (match b with | none => "-" | some msg => "!" ++ msg)
 
 end CM
